@@ -556,13 +556,17 @@ class Builder:
 def main_datum(req, direction):
     if req == "M":
         return {"a": 0, "b": 0} if direction == "load" else M(0, 0)
+    if req == "None":
+        return None
+    if req in UNNORMALISABLE:  # only a matching user entry can serve it; the markers work on the int
+        return 0
     return {"int": 0, "List[int]": [0, 0], "Optional[int]": 0}[req]
 
 
 def option_data(req):
     """Load-only data whose outcome depends on the options of the retort whose builtin provider serves it."""
     out = {"int": ["5"], "M": [{"a": "5", "b": 0}, {}], "List[int]": [["5", 0]], "Optional[int]": ["5"]}
-    return out[req]
+    return out.get(req, [])
 
 
 def per_stack(log):
@@ -601,19 +605,53 @@ def same_value(a, b):
 
 
 # ----------------------------------------------------------------------------------- the oracle
+def reference(top: RCtx, direction, req, defect=False):
+    """-> (kind, tree, Ref); kind: 'value' (tree is the composed function) | 'not_found' | 'unspecified'"""
+    ref = Ref(direction, defect)
+    try:
+        return "value", ref.resolve(top, (("T", req, None),)), ref
+    except RefNotFound:
+        return "not_found", None, ref
+    except RefUnspecified:
+        return "unspecified", None, ref
+
+
+def compare(kind, tree, ref: Ref, by_idx, status, got, got_log, logged, datum):
+    """Verdict of the main oracle -> (agrees, primary difference or None, a sub-request was sent more than once)."""
+    def matches(stack, idx):
+        return PREDS[by_idx[idx].pred][2](stack)
+    ref_log = per_stack(ref.log)
+    if kind == "unspecified":  # only: nobody is consulted for a location its predicate does not match
+        if logged and any(not matches(st_, i) for st_, sends in got_log.items() for g in sends for i in g):
+            return False, "consulted_entry_that_must_not_be", False
+        return True, None, False
+    if kind == "not_found":
+        if status != "not_found":
+            return False, "served_a_request_no_matching_provider_can_serve", False
+    elif status == "not_found":
+        return False, "provider_not_found_although_a_matching_provider_serves", False
+    elif not same_value(got, ref.run(tree, datum)):
+        if logged and not _cmp_logs(got_log, ref_log, ref.failed, matches)[0]:
+            return False, _log_diff(got_log, ref_log), False
+        return False, "value_only", False
+    if not logged:
+        return True, None, False
+    ok, rep = _cmp_logs(got_log, ref_log, ref.failed, matches)
+    return ok, (None if ok else _log_diff(got_log, ref_log)), rep
+
+
 def check_case(ctx: runner.Ctx, case):  # noqa: C901, PLR0912, PLR0915
     direction, req, logged = case["dir"], case["req"], case.get("logged", True)
     plan = Plan(case)
     top = plan.reference_ctx()
     stack0 = (("T", req, None),)
 
-    ref = Ref(direction)
-    tree = ref.resolve(top, stack0)
+    kind, tree, ref = reference(top, direction, req)
     ref_log = per_stack(ref.log)
-    bug = Ref(direction, defect=True)
-    bug_tree = bug.resolve(top, stack0)
-    bug_log = per_stack(bug.log)
-    affected = bug_tree != tree or bug_log != ref_log
+    affected = False
+    if KNOWN_OPEN:  # the transcription of the open finding (classification only, see module docstring)
+        bug_kind, bug_tree, bug = reference(top, direction, req, defect=True)
+        affected = (bug_kind, bug_tree) != (kind, tree) or per_stack(bug.log) != ref_log
 
     # ---- evidence: what does this case exercise?
     ctxs = plan.all_ctx(top)
@@ -623,22 +661,29 @@ def check_case(ctx: runner.Ctx, case):  # noqa: C901, PLR0912, PLR0915
     if len(feats) > 1:
         feats.discard("grp:none")
     n_match_max, first_kinds, n_decl, n_pass = 0, set(), 0, 0
-    for stack, idxs in ref_log.items():
-        n_match_max = max(n_match_max, len(idxs))
     by_idx = {e.idx: e for c in ctxs for e in c.seq}
-    for stack, idxs in ref_log.items():
+    for idxs in ref_log.values():
+        n_match_max = max(n_match_max, len(idxs))
         first_kinds.add(by_idx[idxs[0]].kind)
         n_decl += sum(by_idx[i].kind == "decline" for i in idxs)
         n_pass += sum(by_idx[i].kind == "pass" for i in idxs)
     matched_twice = any(
         sum(PREDS[e.pred][2](stack) for e in top.seq) >= 2 for stack in {stack0, *ref_log})
-    nontrivial = matched_twice or bool(first_kinds - {"plain", "retort"})
+    unnorm = req in UNNORMALISABLE
+    has_exact = any(exact_origin(e) is not None for e in by_idx.values())
+    nontrivial = matched_twice or bool(first_kinds - {"plain", "retort"}) or (unnorm and has_exact)
     n_user = len(by_idx)
     labels = [f"req:{req}", f"dir:{direction}", "log:on" if logged else "log:off(raw providers)",
               "len:0-1" if n_user <= 1 else "len:2-3" if n_user <= 3 else "len:4-6" if n_user <= 6 else "len:7+",
-              *sorted(feats)]
+              f"expect:{'ProviderNotFoundError' if kind == 'not_found' else kind}", *sorted(feats)]
     top_first = by_idx[ref_log[stack0][0]].kind if stack0 in ref_log else "builtin"
     labels.append(f"top_first:{top_first}")
+    if unnorm:
+        labels.append("unnormalisable_request")
+        if has_exact:
+            labels.append("unnormalisable_request+exact_class_entries")
+        if "grp:table_with_None_key" in feats:
+            labels.append("unnormalisable_request+None_keyed_table")
     if n_match_max >= 2:
         labels.append("consulted>=2_for_one_location")
     if n_match_max >= 4:
@@ -647,7 +692,7 @@ def check_case(ctx: runner.Ctx, case):  # noqa: C901, PLR0912, PLR0915
         labels.append("declined>=1")
     if n_pass:
         labels.append("passed_through>=1")
-    depth = _max_compose(tree)
+    depth = _max_compose(tree) if kind == "value" else 0
     if depth >= 2:
         labels.append("composed>=2_functions")
     if depth >= 3:
@@ -670,29 +715,30 @@ def check_case(ctx: runner.Ctx, case):  # noqa: C901, PLR0912, PLR0915
         ctx.count("excluded_known")
     key = {k: case.get(k) for k in ("dir", "req", "recipe", "ops", "cls", "logged", "strict", "debug")}
     datum = main_datum(req, direction)
-    expected = ref.run(tree, datum)
+    expected = digits(ref.run(tree, datum)) if kind == "value" else \
+        "ProviderNotFoundError" if kind == "not_found" else "unspecified"
     ctx.case(key, nontrivial, labels=labels,
-             sample={"case": key, "reference_log": fmt_log(ref_log), "expected": digits(expected)})
+             sample={"case": key, "reference_log": fmt_log(ref_log), "expected": expected})
+    if kind == "unspecified":
+        ctx.count("unspecified_nested_retort_cannot_serve_the_request")
 
     feature = ("nested" if len(ctxs) > 1 else "cls" if plan.cls_shape else "ops" if plan.ops else "plain_retort")
 
     # ---- run the real thing
     status, got, got_log, func = run_real(plan, direction, req, logged, datum)
-    if status != "ok":
-        kind, e = status
-        ctx.violation(kind, (type(e).__name__, exc_site(e), direction), case,
-                      f"datum={datum!r} expected={digits(expected)}: {describe(e)}; reference recipe={top.seq}")
+    if status not in ("ok", "not_found"):
+        vkind, e = status
+        ctx.violation(vkind, (type(e).__name__, exc_site(e), direction), case,
+                      f"datum={datum!r} expected={expected}: {describe(e)}; reference recipe={top.seq}")
         return
-    value_ok = same_value(got, expected)
-    log_ok, log_rep = _cmp_logs(got_log, ref_log) if logged else (True, False)
-    if not value_ok or not log_ok:
+    ok, diff, log_rep = compare(kind, tree, ref, by_idx, status, got, got_log, logged, datum)
+    if not ok:
         # "stale_single_combo" == the real tree behaves EXACTLY (value and log) as the transcription of the known
         # defect predicts for this case; anything else stays "unexplained"
         explained = "unexplained"
-        if affected and same_value(got, bug.run(bug_tree, datum)) and (not logged or _cmp_logs(got_log, bug_log)[0]):
+        if affected and compare(bug_kind, bug_tree, bug, by_idx, status, got, got_log, logged, datum)[0]:
             explained = "stale_single_combo"
             ctx.count("mismatches_explained_exactly_by_known_defect_model")
-        diff = _log_diff(got_log, ref_log) if logged and not log_ok else "value_only"
         # localise the root cause: does the equivalent flat ``Retort(recipe=...)`` disagree as well (-> routing), or
         # only the construction route (extend / replace / class recipes)?  is the other direction wrong as well?
         where = feature
@@ -704,15 +750,21 @@ def check_case(ctx: runner.Ctx, case):  # noqa: C901, PLR0912, PLR0915
             where = "routing"
         other = dict(case, dir="dump" if direction == "load" else "load")
         dirs = "both_directions" if not agrees(other) else f"{direction}_only"
+        got_txt = "ProviderNotFoundError" if status == "not_found" else digits(got)
         ctx.violation("resolution_mismatch", (explained, diff, where, dirs), case,
-                      f"request={req} dir={direction} value got={digits(got)} expected={digits(expected)}; "
-                      f"consultation log got={fmt_log(got_log)} expected={fmt_log(ref_log)}; "
+                      f"request={req} dir={direction} outcome got={got_txt} expected={expected}; "
+                      f"consultation log got={fmt_log(got_log) if logged else 'n/a'} expected={fmt_log(ref_log)}"
+                      f"{' (only membership is asserted on a failing path)' if kind != 'value' else ''}; "
                       f"flattened reference recipe={top.seq}")
         return
     if log_rep:
         ctx.count("unspecified_sub_request_sent_more_than_once")
     if affected and logged:
         ctx.count("known_defect_model_predicted_a_difference_but_reference_held")
+    if kind == "not_found" and logged and any(len(g) != len(set(g)) for sends in got_log.values() for g in sends):
+        ctx.count("unspecified_reconsultation_after_a_chaining_entry_found_no_next")
+    if kind != "value":
+        return
 
     # ---- options of the serving retort (load only; informative when retorts with different options are involved)
     if direction == "load" and (len(ctxs) > 1 or any(op == "replace" for op, _ in plan.ops) or case.get("optprobe")):
@@ -739,13 +791,16 @@ def check_case(ctx: runner.Ctx, case):  # noqa: C901, PLR0912, PLR0915
 
 
 def run_real(plan: Plan, direction, req, logged, datum):
-    """-> (status, value, {stack: [sequence per send]}, loader-or-dumper); status 'ok' or (violation kind, exc)"""
+    """-> (status, value, {stack: [sequence per send]}, loader-or-dumper);
+    status: 'ok' | 'not_found' (the facade raised ProviderNotFoundError) | (violation kind, exception)"""
     builder = Builder(direction, logged)
     retort = builder.retort(plan)
     tp = REQ_TYPES[req]
     try:
         func = retort.get_loader(tp) if direction == "load" else retort.get_dumper(tp)
-    except Exception as e:  # noqa: BLE001 -- every request here is servable by the builtin providers
+    except ProviderNotFoundError:
+        return "not_found", None, per_send(builder.log), None
+    except Exception as e:  # noqa: BLE001 -- resolution either succeeds or reports ProviderNotFoundError
         return ("resolution_failed", e), None, None, None
     creation_log = list(builder.log)
     try:
@@ -758,17 +813,17 @@ def run_real(plan: Plan, direction, req, logged, datum):
 
 
 def agrees(case) -> bool:
-    """Plain verdict of the main oracle (value + consultation log) on a derived case; used to localise a mismatch."""
+    """Plain verdict of the main oracle (outcome + consultation log) on a derived case; used to localise a mismatch."""
     direction, req, logged = case["dir"], case["req"], case.get("logged", True)
     plan = Plan(case)
     top = plan.reference_ctx()
-    ref = Ref(direction)
-    tree = ref.resolve(top, (("T", req, None),))
+    kind, tree, ref = reference(top, direction, req)
+    by_idx = {e.idx: e for c in plan.all_ctx(top) for e in c.seq}
     datum = main_datum(req, direction)
     status, got, got_log, _ = run_real(plan, direction, req, logged, datum)
-    if status != "ok":
+    if status not in ("ok", "not_found"):
         return False
-    return same_value(got, ref.run(tree, datum)) and (not logged or _cmp_logs(got_log, per_stack(ref.log))[0])
+    return compare(kind, tree, ref, by_idx, status, got, got_log, logged, datum)[0]
 
 
 def _fmt_outcome(o):
@@ -789,16 +844,22 @@ def _max_compose(node):
     return _max_compose(node[1])
 
 
-def _cmp_logs(got, exp):
+def _cmp_logs(got, exp, failed=(), matches=None):
     """-> (agrees, some sub-request was sent more than once).  Every send of a location must show exactly the
     reference's consultation sequence; the top-level request is sent once by the harness; how often a builtin
-    provider sends the same sub-request is not specified (counted)."""
+    provider sends the same sub-request is not specified (counted).
+    Locations in ``failed`` (nothing can serve them): a chaining / delegating entry whose rest of the recipe fails is
+    treated as declining by the request bus, which then scans the same rest again -- not specified, so only
+    membership (every consulted entry's predicate matches) and the first consulted entry are asserted there."""
     if set(got) != set(exp):
         return False, False
     rep = False
     for stack, e in exp.items():
         sends = got[stack]
-        if any(g != e for g in sends):
+        if stack in failed:
+            if any(g[0] != e[0] or not all(matches(stack, i) for i in g) for g in sends):
+                return False, False
+        elif any(g != e for g in sends):
             return False, False
         if len(sends) > 1:
             if len(stack) == 1:
@@ -833,20 +894,21 @@ def _log_diff(got, exp):
 
 
 # ----------------------------------------------------------------------------------- known-finding switch
-def exclusion_active() -> bool:
-    """Generators avoid the class affected by the open finding only while it is open
-    (VERIF_C09_NO_EXCLUDE=1 switches the avoidance off, e.g. to validate a candidate fix on the whole domain)."""
-    if os.environ.get("VERIF_C09_NO_EXCLUDE") == "1":
-        return False
+def known_open() -> bool:
     return any(e.get("id") == KNOWN_ID and e.get("status") == "open" for e in runner.load_known(PROP))
 
 
+def exclusion_active() -> bool:
+    """Generators avoid the class affected by the finding only while it is open
+    (VERIF_C09_NO_EXCLUDE=1 switches the avoidance off, e.g. to validate a candidate fix on the whole domain)."""
+    return KNOWN_OPEN and os.environ.get("VERIF_C09_NO_EXCLUDE") != "1"
+
+
 def is_affected(case) -> bool:
-    plan = Plan(case)
-    top = plan.reference_ctx()
-    stack0 = (("T", case["req"], None),)
-    a, b = Ref(case["dir"]), Ref(case["dir"], defect=True)
-    return a.resolve(top, stack0) != b.resolve(top, stack0) or a.log != b.log
+    top = Plan(case).reference_ctx()
+    ka, ta, a = reference(top, case["dir"], case["req"])
+    kb, tb, b = reference(top, case["dir"], case["req"], defect=True)
+    return (ka, ta) != (kb, tb) or a.log != b.log
 
 
 def repair_recipe(raw):
@@ -945,7 +1007,8 @@ def st_recipe(draw, req, min_size, max_size, depth):
 
 @st.composite
 def st_case(draw):
-    req = draw(st.sampled_from(REQS))
+    req = draw(_weights([("int", 3), ("M", 3), ("List[int]", 3), ("Optional[int]", 3), ("FR", 3), ("List[FR]", 2),
+                         ("bare Literal", 1), ("bare Union", 1), ("object 5", 1), ("list['Missing']", 1), ("None", 1)]))
     case = {"dir": draw(st.sampled_from(["load", "load", "dump"])), "req": req,
             "logged": draw(st.integers(0, 4)) > 0, "strict": draw(st.booleans()), "debug": draw(st.integers(0, 2))}
     shape = draw(_weights([("long", 6), ("ops", 3), ("cls", 3), ("nested", 3)]))
@@ -982,13 +1045,13 @@ def st_case(draw):
 
 # ----------------------------------------------------------------------------------- exploration
 CORE = [("int", "plain"), ("int", "first"), ("int", "last"), ("int", "decline"), ("int", "pass"),
-        ("str", "plain"), ("bool", "first"),
+        ("str", "plain"), ("bool", "first"), ("None", "plain"), ("None", "first"),
         ("M", "plain"), ("M", "first"), ("M", "decline"),
         ("list", "last"), ("list", "pass"),
         ("a", "plain"), ("a", "first"), ("P[M].a", "last"),
         ("~P[M].a", "first"), ("~P[M].a", "decline"),
         ("P.ANY", "plain"), ("P.ANY", "first"), ("P.ANY", "last"), ("Integral", "first")]
-FULL_PREDS = ("int", "str", "M", "list", "P[int]", "List[int]", "Integral", "a", "[ab]", "P[M].a", "~P[M].a",
+FULL_PREDS = ("int", "str", "None", "M", "list", "P[int]", "List[int]", "Integral", "a", "[ab]", "P[M].a", "~P[M].a",
               "P.ANY", "~P[int]", "and(int,ANY)")
 FULL = [(p, k) for p in FULL_PREDS for k in KINDS]
 
@@ -1007,6 +1070,17 @@ FIXED = [
      "cls": {"shape": "diamond", "levels": [[["int", "first"]], [["int", "last"]], [["int", "decline"]]]}},
     {"dir": "load", "req": "Optional[int]", "recipe": [],
      "cls": {"shape": "chain", "levels": [[["int", "first"]], [["Integral", "last"]], [["P.ANY", "first"]]]}},
+    # a type that cannot be normalised has no origin: entries keyed by a class (None included) never serve it, whether
+    # the router keeps them in a hash table ([None, str]) or as single items ([None] + the builtin None provider)
+    *[{"dir": d, "req": r, "recipe": rc}
+      for d in ("load", "dump") for r in UNNORMALISABLE
+      for rc in ([], [["None", "plain"], ["str", "plain"]], [["None", "plain"]], [["str", "first"], ["None", "first"]],
+                 [["None", "plain"], ["str", "plain"], ["P.ANY", "last"], ["~P[int]", "plain"]],
+                 [["int", "plain"], ["None", "pass"], ["P.ANY", "first"], ["P.ANY", "decline"]])],
+    {"dir": "load", "req": "FR", "recipe": [["BARE", "retort", {"recipe": [["None", "plain"], ["bool", "plain"]]}],
+                                            ["P.ANY", "plain"]]},
+    {"dir": "load", "req": "None", "recipe": [["str", "plain"], ["None", "pass"], ["P.ANY", "decline"]]},
+    {"dir": "dump", "req": "None", "recipe": [["None", "decline"], ["None", "plain"], ["P.ANY", "plain"]]},
 ]
 
 
@@ -1060,6 +1134,7 @@ def explore(ctx: runner.Ctx):
     ctx.given(st_case(), sampled, ctx.budget(12000, 200000))
 
 
+KNOWN_OPEN = known_open()
 EXCLUDE_KNOWN = exclusion_active()
 
 RULE = ("case = (direction, request type, instance recipe of (predicate, handler kind) entries [+ extend()/replace() "
